@@ -434,6 +434,7 @@ class Builder:
         self.name = fn["name"]
         self.params = [(A.binding_name(i["pat"]), i["ty"].replace(" ", "")) for i in fn["sig"]["inputs"] if "pat" in i]
         self.blocks = []  # (macro node, head, [Ins], guarded?)
+        self.unrolled = set()  # ids of dynasm macro nodes read as a constant-trip loop written out
         self.local_imm = set()
         self.helper_calls = []  # (method, [arg names])
         self.commit_local = 0
@@ -551,6 +552,7 @@ def load_builders(path, root=None):
                 if unrolled is None:
                     b.blocks.append((m, head, ins))
                 else:
+                    b.unrolled.add(id(m))
                     for ins_v in unrolled:
                         b.blocks.append((m, head, ins_v))
         for c in A.find(fn["body"], "MethodCall"):
